@@ -670,6 +670,7 @@ func (e *Engine) registerModels() {
 	e.registerCodecModels()
 	e.registerCLIModels()
 	e.registerGenericModels()
+	e.registerScannerModels()
 }
 
 // symbolicSort sorts a slice of hash codes with a compare-exchange network: the real
